@@ -160,6 +160,12 @@ fn main() {
             run(&mut out, &mut st, &mut rng, cfg, kind, len, WRITERS[(len + ki) % 4]);
         }
     }
+    // option values outside the documented set: if the API accepts one, its output is judged like any other
+    // (e.g. a block size below 16 gives non-final blocks the format forbids)
+    for bs in [1u16, 2, 8, 15] {
+        let cfg = Cfg { bs, lpc: None, ..Cfg::default() };
+        run(&mut out, &mut st, &mut rng, &cfg, "walk", bs as usize * 3 + 1, Writer::Samples);
+    }
     for len in 1..=12usize {
         for rep in 0..scale(if thorough { 200 } else { 30 }) {
             let kind = ["small", "poly", "walk", "min_adjacent"][rep % 4];
